@@ -694,7 +694,20 @@ def linear(body, op, depth=0):
     if 1 <= l <= body.argc:
         return (("arg", l), 0)
     d = single_def(body, l)
-    if d is None or d[1] == "term":
+    if d is None:
+        return None
+    if d[1] == "term":
+        t = d[2]
+        if t["k"] == "call":
+            m = re.search(r"::(wrapping_add|wrapping_sub|saturating_add|saturating_sub|checked_add|checked_sub)$", t.get("f", ""))
+            if m and len(t["args"]) == 2:
+                a = linear(body, t["args"][0], depth + 1)
+                b = linear(body, t["args"][1], depth + 1)
+                sign = 1 if m.group(1).endswith("add") else -1
+                if a and b and b[0] == ("const",):
+                    return (a[0], a[1] + sign * b[1])
+                return None
+            return (("call", d[0]), 0)      # an opaque value, named by its defining call site
         return None
     r = d[2]["r"]
     if r["k"] == "use":
